@@ -267,7 +267,7 @@ def lenient_sizes(txt):
             continue
         total, nloc, fts = 0, 0, []
         for t in line.split(b" ")[1:]:
-            m = re.match(rb'^\+?([0-9]+):\+?([0-9]+):', t)      # Go's ParseInt also takes a leading '+'
+            m = re.match(rb'^([+-]?[0-9]+):([+-]?[0-9]+):', t)    # Go's ParseInt also takes a sign ("+1", "-0")
             if m:
                 fts.append((int(m.group(1)), int(m.group(2))))
                 continue
@@ -516,6 +516,8 @@ def oracle_malformed(op, txt, impl):
         if not fts:
             return "stream without file tokens accepted"
         for pos, size in fts:
+            if pos < 0 or size < 0:
+                return f"malformed manifest accepted: file token with negative position/size {pos}:{size}"
             if pos + size > total:
                 return f"malformed manifest accepted: file token {pos}:{size} exceeds the {total}-byte stream"
             claimed += size
